@@ -909,6 +909,12 @@ class Evolver:
                 if i % 3 == 0:
                     p["proposed"] = True   # required (even i) and optional (odd i) properties alike
                 props.append(p)
+            # anonymous literals carry their marks on the literal itself (`value`), in every position a literal can take
+            S_ = {"kind": "base", "name": "string"}
+            lit = lambda pn, **marks: {"kind": "literal", "value": {"properties": [{"name": pn, "type": S_}], **marks}}   # noqa: E731
+            props.append({"name": "vfLitPlain", "type": lit("vfA", proposed=True, documentation="A literal.\n@since 3.18.0")})
+            props.append({"name": "vfLitArray", "type": {"kind": "array", "element": lit("vfB", deprecated=text(), since=text())}, "optional": True})
+            props.append({"name": "vfLitOrNull", "type": {"kind": "or", "items": [lit("vfC", since="3.17.0", sinceTags=["3.17.0", text()]), {"kind": "base", "name": "null"}]}})
             self.doc["structures"].append({"name": sname, "properties": props, "deprecated": text(), "since": text(), "sinceTags": ["3.17.0", text()]})
             self.new_structs.append(sname)
             vals = [{"name": w, "value": w.lower(), "deprecated": text(), "since": text()} for w in WORDS_U[:4]]
